@@ -130,7 +130,8 @@ impl Property for C04 {
          (every effect boundary + byte cuts): after recovery every surviving queue must have last_position in {H, H'} (H' \
          also counts the in-flight call), append(None) must return last_position+1, a retry of last_position must be a \
          no-op, an older explicit position must be rejected as Past, and after one more restart every queue must still \
-         report the position just assigned. evaluations = calls checked + crash images \
+         report the position just assigned; at every other crash point the recovered log is first restarted once more \
+         with no call in between and must show the same queues and last positions before the probes run. evaluations = calls checked + crash images \
          probed. non-trivial = an append (live or after recovery) on a queue that was empty while >= 1 WAL file was \
          unlinked and >= 1 restart/crash happened since it became empty; distinct = hash(history, op or crash point, queue)."
             .to_string()
@@ -263,6 +264,42 @@ impl Property for C04 {
             let inflight_queue: Option<String> = inflight.and_then(|op| cops[op].queue().map(|q| q.text()));
             let inflight_changes_existence = inflight.map_or(false, |op| matches!(cops[op], COp::Create { .. } | COp::Delete { .. }));
             let mut driver = recovered.driver;
+            // every other crash point: restart once more BEFORE any probe touches the log ("restarted or recovered from
+            // a crash"): what the recovery showed must not depend on something only the recovering incarnation knew
+            // (a probe append would write the queue's position again and hide that)
+            if hash64(&(ctx.point.k, ctx.point.b)) % 2 == 1 {
+                let shown: Vec<(String, Option<u64>)> = {
+                    let log = driver.log.as_ref().unwrap();
+                    log.list_queues().map(|name| (name.to_string(), last_position(log, name).ok().flatten())).collect()
+                };
+                let _ = driver.tracer.feed(mrecordlog::verif_hooks::take_events());
+                driver.close()?;
+                match crate::recover::recover_dir(&crash_dir, case.policy) {
+                    Ok(again) => {
+                        env.class("crash:idle-restart-before-probes");
+                        for (name, hi) in &shown {
+                            let log = again.driver.log.as_ref().unwrap();
+                            let now = if log.queue_exists(name) { Some(last_position(log, name).ok().flatten()) } else { None };
+                            if now != Some(*hi) {
+                                let mut again = again;
+                                again.driver.close()?;
+                                return Err(exec.failure(
+                                    format!("{where_}: the recovered log showed {name:?} with last_position {hi:?}; after one more restart with no call in between it shows {}",
+                                        match now { None => "no such queue (its positions would start again from 0)".to_string(), Some(pos) => format!("last_position {pos:?}") }),
+                                    "position-lost-at-idle-restart-after-recovery",
+                                    extra,
+                                ));
+                            }
+                        }
+                        driver = again.driver;
+                    }
+                    Err(crate::recover::RecoverError::Engine(msg)) => return Err(CaseError::Engine(msg)),
+                    Err(_) => {
+                        env.class("crash:second-open-failed-skipped");
+                        return Ok(());
+                    }
+                }
+            }
             let names: Vec<String> = driver.log.as_ref().unwrap().list_queues().map(|name| name.to_string()).collect();
             // a queue that completed calls left alive must still be there (unless the in-flight call deletes it):
             // losing the queue loses every position ever assigned in it
